@@ -69,23 +69,103 @@ const (
 	AbortBody                    // 200 headers, then the body read fails (backend reset mid-body)
 	Interim5xx                   // "103 Early Hints" interim response, then 500
 	InterimGood                  // "103 Early Hints" interim response, then 200
+	ParkHead                     // 200 head at once, then block before the first body byte until Release (AbortBody: body read fails; anything else: the body is delivered)
+	ParkMidBody                  // 200 head and the first part(s) of the body at once, then block until Release (as ParkHead)
 )
 
 func (b Behaviour) String() string {
-	return [...]string{"good", "5xx", "unreachable", "park", "4xx", "abort-body", "103+5xx", "103+200"}[b]
+	return [...]string{"good", "5xx", "unreachable", "park", "4xx", "abort-body", "103+5xx", "103+200", "park-after-head", "park-mid-body"}[b]
 }
 
 // FakeNet is the scripted http.RoundTripper standing in for http.Transport in L1.
 type FakeNet struct {
-	mu       sync.Mutex
-	behave   map[string]Behaviour // by host
-	hits     map[string]int       // proxied requests that reached host (excluding probes)
-	probes   map[string]int       // probe requests that reached host
-	order    []string             // hosts in arrival order (proxied only)
-	parked   map[string][]chan Behaviour
-	probeFn  func(host string) Behaviour
-	probeB   map[string]Behaviour // explicit probe behaviour by host (overrides behave for probes)
-	probeLog []ProbeRec
+	mu        sync.Mutex
+	behave    map[string]Behaviour // by host
+	hits      map[string]int       // proxied requests that reached host (excluding probes)
+	probes    map[string]int       // probe requests that reached host
+	order     []string             // hosts in arrival order (proxied only)
+	parked    map[string][]chan Behaviour
+	probeFn   func(host string) Behaviour
+	probeB    map[string]Behaviour // explicit probe behaviour by host (overrides behave for probes)
+	probeLog  []ProbeRec
+	parkParts map[string][2]int // by host: body parts delivered before / after the park of ParkHead, ParkMidBody
+}
+
+// SetParkParts fixes, for ParkMidBody (and the tail of ParkHead) responses of host, how many body parts
+// the backend delivers before it goes quiet and how many after it was released (default 1 and 1).
+// Every part is returned by its own Read, as separate writes of a streaming backend are.
+func (f *FakeNet) SetParkParts(host string, before, after int) {
+	f.mu.Lock()
+	if f.parkParts == nil {
+		f.parkParts = map[string][2]int{}
+	}
+	f.parkParts[host] = [2]int{before, after}
+	f.mu.Unlock()
+}
+
+// parkedBody is the response body of a ParkHead / ParkMidBody response: a backend that has sent its
+// response head (and some body parts), stays quiet until it is released, and then sends the rest
+// (or breaks off, when released as AbortBody).
+type parkedBody struct {
+	f        *FakeNet
+	pkey     string
+	ctx      context.Context
+	ch       chan Behaviour
+	pre      []string // parts still to deliver before parking
+	post     []string // parts to deliver after the release
+	released bool
+	fail     bool
+	cur      []byte
+}
+
+func (p *parkedBody) Read(b []byte) (int, error) {
+	for {
+		if len(p.cur) > 0 {
+			n := copy(b, p.cur)
+			p.cur = p.cur[n:]
+			return n, nil
+		}
+		if len(p.pre) > 0 {
+			p.cur, p.pre = []byte(p.pre[0]), p.pre[1:]
+			continue
+		}
+		if !p.released {
+			select {
+			case as := <-p.ch:
+				p.released, p.fail = true, as == AbortBody
+			case <-p.ctx.Done():
+				p.f.unpark(p.pkey, p.ch)
+				return 0, p.ctx.Err()
+			}
+		}
+		if p.fail {
+			return 0, io.ErrUnexpectedEOF
+		}
+		if len(p.post) > 0 {
+			p.cur, p.post = []byte(p.post[0]), p.post[1:]
+			continue
+		}
+		return 0, io.EOF
+	}
+}
+
+func (p *parkedBody) Close() error {
+	if !p.released {
+		p.f.unpark(p.pkey, p.ch)
+	}
+	return nil
+}
+
+func (f *FakeNet) unpark(pkey string, ch chan Behaviour) {
+	f.mu.Lock()
+	q := f.parked[pkey]
+	for i := range q {
+		if q[i] == ch {
+			f.parked[pkey] = append(q[:i:i], q[i+1:]...)
+			break
+		}
+	}
+	f.mu.Unlock()
 }
 
 func NewFakeNet() *FakeNet {
@@ -264,14 +344,39 @@ func (f *FakeNet) roundTrip(req *http.Request, isProbe bool) (*http.Response, er
 		f.order = append(f.order, host)
 	}
 	var ch chan Behaviour
-	if b == Park {
+	if b == Park || b == ParkHead || b == ParkMidBody {
 		ch = make(chan Behaviour, 1)
 		f.parked[pkey] = append(f.parked[pkey], ch)
 	}
+	pp, ppSet := f.parkParts[host]
 	f.mu.Unlock()
 	if req.Body != nil {
 		_, _ = io.Copy(io.Discard, req.Body)
 		_ = req.Body.Close()
+	}
+	if b == ParkHead || b == ParkMidBody {
+		// the response head is available at once; the body goes quiet before its first byte (ParkHead)
+		// or after its first part(s) (ParkMidBody) until Release
+		if !ppSet {
+			pp = [2]int{1, 1}
+		}
+		pb := &parkedBody{f: f, pkey: pkey, ctx: req.Context(), ch: ch}
+		if b == ParkMidBody {
+			for i := 0; i < max(pp[0], 1); i++ {
+				pb.pre = append(pb.pre, fmt.Sprintf("part%d:%s;", i, host))
+			}
+		}
+		for i := 0; i < max(pp[1], 1); i++ {
+			pb.post = append(pb.post, fmt.Sprintf("tail%d:%s;", i, host))
+		}
+		if isProbe {
+			f.mu.Lock()
+			f.probeLog = append(f.probeLog, ProbeRec{Host: host, Start: start, End: time.Now(), OK: true})
+			f.mu.Unlock()
+		}
+		return &http.Response{StatusCode: 200, Status: "200 OK", Proto: "HTTP/1.1", ProtoMajor: 1, ProtoMinor: 1,
+			Header: http.Header{"Content-Type": {"text/plain"}, "X-Backend": {host}},
+			Body:   pb, ContentLength: -1, Request: req}, nil
 	}
 	if ch != nil {
 		select {
